@@ -267,8 +267,8 @@ type errFlowResult struct {
 	// the call is executed again (a loop came round) on a path on which its earlier error was still
 	// pending: the earlier error is overwritten without ever having been returned
 	overwritten bool
-	tested   bool
-	unused   bool
+	tested      bool
+	unused      bool
 }
 
 // resolveSpill: go/ssa spills results of functions with defers (`*t0 = X; rundefers; t = *t0; return t`)
